@@ -449,16 +449,20 @@ func main() {
 	def("scanLower", "BufferedBatch loop: `if <this> { lowestLevel = l }`", guard(sLow, whyB))
 	def("scanHigher", "BufferedBatch loop: `if <this> { highestLevel = l; highestPoint = bp }`", guard(sHigh, whyB))
 
-	// addEvent: a.changed = <expr>
-	var chg ast.Expr
-	if fd := funcDecl(alertF, "addEvent", "*alertState"); fd != nil && len(fd.Body.List) == 5 {
-		if as, ok := fd.Body.List[0].(*ast.AssignStmt); ok && len(as.Lhs) == 1 && src(as.Lhs[0]) == "a.changed" &&
-			src(fd.Body.List[1]) == "a.idx = (a.idx + 1) % len(a.history)" && src(fd.Body.List[2]) == "a.history[a.idx] = level" &&
-			src(fd.Body.List[3]) == "a.updateFlapping()" && src(fd.Body.List[4]) == "a.updateExpired(t)" {
-			chg = as.Rhs[0]
+	// addEvent: a.changed = <expr>; if <expr> { a.firstTriggered = t }; advance; store; updateFlapping; updateExpired
+	var chg, left ast.Expr
+	if fd := funcDecl(alertF, "addEvent", "*alertState"); fd != nil && len(fd.Body.List) == 6 {
+		as, ok := fd.Body.List[0].(*ast.AssignStmt)
+		is, ok2 := fd.Body.List[1].(*ast.IfStmt)
+		if ok && ok2 && len(as.Lhs) == 1 && src(as.Lhs[0]) == "a.changed" &&
+			is.Init == nil && is.Else == nil && len(is.Body.List) == 1 && src(is.Body.List[0]) == "a.firstTriggered = t" &&
+			src(fd.Body.List[2]) == "a.idx = (a.idx + 1) % len(a.history)" && src(fd.Body.List[3]) == "a.history[a.idx] = level" &&
+			src(fd.Body.List[4]) == "a.updateFlapping()" && src(fd.Body.List[5]) == "a.updateExpired(t)" {
+			chg, left = as.Rhs[0], is.Cond
 		}
 	}
-	def("changedRule", "addEvent: `a.changed = <this>` (before the ring advances; then idx+1 mod len, store, updateFlapping, updateExpired)", guard(chg, "alertState.addEvent: shape not recognised"))
+	def("changedRule", "addEvent: `a.changed = <this>` (before the ring advances; then leftOKRule, idx+1 mod len, store, updateFlapping, updateExpired)", guard(chg, "alertState.addEvent: shape not recognised"))
+	def("leftOKRule", "addEvent: `if <this> { a.firstTriggered = t }` (after a.changed is set, before the ring advances)", guard(left, "alertState.addEvent: shape not recognised"))
 
 	// updateExpired: a.expired = <expr>
 	var exp ast.Expr
